@@ -1226,6 +1226,21 @@ impl Core {
 		let memtable_count = memtables.len();
 		if memtable_count > 1 {
 			log::info!("Recovery: flushing {} intermediate memtables to SST", memtable_count - 1);
+			// A piece can end in the middle of a transaction (the memtable filled up
+			// there). Once such a piece is a synced table, the rest of that transaction
+			// must be as durable as the table: after a process crash the tail of a
+			// segment may never have been fsynced, so fsync the replayed segments first.
+			let mut synced_segment = None;
+			for (_, wal_number) in memtables.iter() {
+				if synced_segment != Some(*wal_number) {
+					let segment_path = wal_path.join(format!("{:020}.wal", wal_number));
+					if segment_path.exists() {
+						std::fs::File::open(&segment_path)?.sync_all()?;
+					}
+					synced_segment = Some(*wal_number);
+				}
+			}
+
 			for i in 0..memtable_count - 1 {
 				let (memtable, wal_number) = &memtables[i];
 				// A segment is completely in tables only once its LAST piece is flushed:
